@@ -259,8 +259,47 @@ def check(run: Run) -> None:
         R.slot_bounds(run, "C10.j", ["src/hgraph/runtime/map_node.cpp", "src/hgraph/runtime/mesh_node.cpp", "src/hgraph/runtime/nested_graph_storage.h",
                                      "include/hgraph/runtime/nested_graph_storage.h"], floor=6)
 
+    with run.obligation("C10.k", "K1+K3", "a replaced key source is adopted in place only if EVERY existing entry sits in an occupied slot of the new set that "
+                        "holds the SAME key (otherwise every child is removed and rebuilt fresh); the per-cycle list of membership changes is cleared once "
+                        "per cycle, before the scan over the multiplexed inputs, never inside it"):
+        fa = R.fn(run, MAP, "key_source_layout_compatible")
+        cn = R.aliases_of(fa)
+        lp = [l for l in R.loops(fa) if isinstance(l, C.For)]
+        run.sites(len(lp), 1, "entry scan")
+        body = C.Block(list(lp[0].body.stmts), ti=lp[0].body.ti) if isinstance(lp[0].body, C.Block) else lp[0].body
+        E = r"storage\.entries\.entry_at\(slot\)"
+        roles = [Role("NOENTRY", "bool", E + r"==nullptr|nullptr==" + E), Role("SLOT", "n", r"slot"), Role("CAP", "n", r"keys_set\.slot_capacity\(\)"),
+                 Role("OCC", "bool", r"keys_set\.slot_occupied\(slot\)"), Role("SAMEKEY", "bool", E + r"->key\.equals\(keys_set\.at_slot\(slot\)\)")]
+
+        def spec(v):
+            if v.b("NOENTRY"):
+                return Expect(ret="unchecked")  # continue
+            if v.ge("SLOT", "CAP") or not v.b("OCC") or not v.b("SAMEKEY"):
+                return Expect(ret=False)
+            return Expect(ret="unchecked")
+        R.k1(run, "C10.k", fa, roles, spec, unit=lp[0].body, role_locals=("slot",), what="key_source_layout_compatible (one entry)")
+        sh = R.loop_shape(lp[0], cn)
+        if not (sh.get("init") == "0" and sh.get("cond_op") == "<" and sh.get("cond_r", "").endswith("entries.slot_capacity()") and sh.get("step") == "++" and not sh["breaks"]):
+            run.finding("C10.k", "key_source_layout_compatible:scan", f"every entry slot must be examined: {sh}", loc=MAP)
+        tail = [cn(r.e) for r in R.find(fa, lambda x: isinstance(x, C.Return)) if not R._contains(lp[0], r)]
+        if tail != ["true"]:
+            run.finding("C10.k", "key_source_layout_compatible:default", f"compatible only after every entry was examined: {tail}", loc=MAP)
+        fa = R.fn(run, MAP, "map_reconcile_keys")
+        fl = R.flow(run, fa)
+        clr = R.call_is(name="clear", recv=r".*membership_changed_keys")
+        nodes = R.require_nodes(run, fl, clr, "membership_changed_keys.clear()")
+        run.count(1, "C10.k.clear-scope")
+        for nid in nodes:
+            if fl.cfg.nodes[nid].loops:
+                run.finding("C10.k", "map_reconcile_keys:membership-list-cleared-in-loop", "membership_changed_keys is cleared inside the scan over the multiplexed "
+                            "inputs: a key that joined an earlier dictionary in this cycle is forgotten when a later dictionary also changed", loc=fl.cfg.describe(nid))
+        push = lambda x: x.kind == "call" and x.name in ("push_back", "emplace_back") and "membership_changed_keys" in x.recv
+        if fl.nodes_of(push):
+            R.k2_precede(run, "C10.k", fl, clr, push, "the per-cycle membership list is cleared before it is filled")
+
 
 VARIANTS = [
+    {"id": "k-compatible-ignores-key-identity", "expect": "C10.k", "edits": [{"file": MAP, "find": "                if (slot >= keys_set.slot_capacity() || !keys_set.slot_occupied(slot) ||\n                    !entry->key.equals(keys_set.at_slot(slot)))", "replace": "                if (slot >= keys_set.slot_capacity() || !keys_set.slot_occupied(slot))"}]},
     {"id": "h-marker-reset-before-test", "expect": "C10.h", "edits": [{"file": MAP, "find": "                if (schedule.pulled)\n                {\n                    if (entry->schedule_context.pulled_when != schedule.when)\n                    {\n                        continue;\n                    }\n                    entry->schedule_context.pulled_when = MAX_DT;\n                }", "replace": "                if (schedule.pulled)\n                {\n                    entry->schedule_context.pulled_when = MAX_DT;\n                    if (entry->schedule_context.pulled_when != schedule.when)\n                    {\n                        continue;\n                    }\n                }"}]},
     {"id": "h-candidate-bounded-by-entry-count", "expect": "C10.h", "edits": [{"file": MAP, "find": "            if (slot == TS_DATA_NO_CHILD_ID || storage.entry_at(slot) == nullptr) { return; }\n            storage.evaluation_candidates.set(slot);", "replace": "            if (slot == TS_DATA_NO_CHILD_ID || slot >= storage.entries.entry_count() || storage.entry_at(slot) == nullptr) { return; }\n            storage.evaluation_candidates.set(slot);"}]},
     {"id": "a-erase-before-stop", "expect": "C10.a", "edits": [{"file": MAP, "find": "            if (entry->graph.has_value() && entry->graph.view().started()) {\n                entry->graph.view().stop(evaluation_time);\n            }\n            entry->schedule_context.pulled_when = MAX_DT;\n            if (output_mutation != nullptr)", "replace": "            entry->schedule_context.pulled_when = MAX_DT;\n            if (output_mutation != nullptr)"}, {"file": MAP, "find": "                (void)error_mutation->erase(entry->key.view());\n            }\n        }", "replace": "                (void)error_mutation->erase(entry->key.view());\n            }\n            if (entry->graph.has_value() && entry->graph.view().started()) {\n                entry->graph.view().stop(evaluation_time);\n            }\n        }"}]},
